@@ -20,4 +20,45 @@ def swapTables (a b : Table κ ν) : Table κ ν × Table κ ν := (b, a)
 def swapShipped (a b : Table κ ν) : Table κ ν × Table κ ν :=
   ({ b with old := a.old, rem := a.rem }, { a with old := b.old, rem := b.rem })
 
+/-! ## Allocators
+
+A table object = a table value + the allocator instance it allocates with (allocators compare by identity `alloc`).
+`Policy` = the three propagation traits of `std::allocator_traits`.  The defaulted copy/move members and `swap`
+delegate to `bucket_container` (which implements the propagation rules by hand) and to `std::list`; the
+allocator-extended constructors are written out in `cuckoohash_map.hh`: with an allocator that differs from the
+source's they cannot adopt the source's list of lock arrays and rebuild only the current array
+(`add_locks_from_other`) — the superseded generations are not carried over. -/
+
+structure Policy where
+  pocca : Bool   -- propagate_on_container_copy_assignment
+  pocma : Bool   -- propagate_on_container_move_assignment
+  pocs : Bool    -- propagate_on_container_swap
+deriving Repr, DecidableEq
+
+structure Obj (κ ν : Type) where
+  t : Table κ ν
+  alloc : Nat
+
+/-- what an allocator-extended constructor keeps of the lock-array history -/
+def Table.rebased (t : Table κ ν) (sameAlloc : Bool) : Table κ ν :=
+  if sameAlloc then t else { t with oldGens := [] }
+
+/-- `cuckoohash_map(const cuckoohash_map&)`: `select_on_container_copy_construction` of the source's allocator -/
+def Obj.copyCtor (s : Obj κ ν) : Obj κ ν := ⟨s.t.copy, s.alloc⟩
+/-- `cuckoohash_map(const cuckoohash_map&, const Allocator&)` -/
+def Obj.copyCtorA (s : Obj κ ν) (a : Nat) : Obj κ ν := ⟨s.t.copy.rebased (a == s.alloc), a⟩
+/-- `cuckoohash_map(cuckoohash_map&&)` -/
+def Obj.moveCtor (s : Obj κ ν) : Obj κ ν := ⟨s.t, s.alloc⟩
+/-- `cuckoohash_map(cuckoohash_map&&, const Allocator&)`: element-wise move when the allocators differ -/
+def Obj.moveCtorA (s : Obj κ ν) (a : Nat) : Obj κ ν := ⟨s.t.rebased (a == s.alloc), a⟩
+/-- copy assignment `d = s` -/
+def Obj.copyAssign (p : Policy) (d s : Obj κ ν) : Obj κ ν := ⟨s.t.copy, if p.pocca then s.alloc else d.alloc⟩
+/-- move assignment `d = std::move(s)` (element-wise when the allocator neither propagates nor is equal) -/
+def Obj.moveAssign (p : Policy) (d s : Obj κ ν) : Obj κ ν := ⟨s.t, if p.pocma then s.alloc else d.alloc⟩
+/-- `a.swap(b)`; defined by the standard only when the allocators propagate or are equal -/
+def Obj.swapOK (p : Policy) (a b : Obj κ ν) : Bool := p.pocs || a.alloc == b.alloc
+def Obj.swap (p : Policy) (a b : Obj κ ν) : Obj κ ν × Obj κ ν :=
+  (⟨(swapTables a.t b.t).1, if p.pocs then b.alloc else a.alloc⟩,
+   ⟨(swapTables a.t b.t).2, if p.pocs then a.alloc else b.alloc⟩)
+
 end Cuckoo.Model
